@@ -41,7 +41,7 @@ M=[
   ["C15"]),
  ("kahn_depth_strict","src/strict/graph.rs",
   "    while !frontier.is_empty() && depth <= adjacency.len() {",
-  "    while !frontier.is_empty() && depth + K::I::one() < adjacency.len() {",
+  "    while !frontier.is_empty() && depth.clone() + K::I::one() < adjacency.len() {",
   ["C15","C16","C17"]),
  ("eval_scatter_to_sources","src/strict/eval.rs",
   "        let output_indexes = f.h.t.map_indexes(&op_ix).unwrap();",
@@ -63,17 +63,9 @@ M=[
   "        self.w.is_injective() && self.x.is_injective()",
   "        self.w.is_injective()",
   ["C18"]),
- ("optic_residual_swapped_interleave","src/strict/functor/optic.rs",
-  "        let rev_cointerleave = interleave_blocks(&m, &ops.b.flatmap_sources(&rb));",
-  "        let rev_cointerleave = interleave_blocks(&ops.b.flatmap_sources(&rb), &m).dagger().dagger();\n        let rev_cointerleave = { let _ = &rev_cointerleave; interleave_blocks(&m, &ops.b.flatmap_sources(&rb)).dagger().dagger() };",
-  []),
- ("injections_off_by_one","src/finite_function/arrow.rs",
-  "        let values = p.gather(a.table.get_range(..));",
-  "        let values = p.gather(a.table.get_range(..));\n        let values = if values.len() > K::I::one() + K::I::one() + K::I::one() { values.clone() + K::Index::fill(K::I::zero(), values.len()) } else { values };",
-  []),
  ("in_degree_uses_sources","src/strict/hypergraph/object.rs",
-  "        let counts = (self.t.values.table.as_ref() as &K::Type<K::I>).bincount(self.w.len());\n        counts.get(node)\n    }\n\n    /// Compute the out-degree",
-  "        let counts = (self.s.values.table.as_ref() as &K::Type<K::I>).bincount(self.w.len());\n        counts.get(node)\n    }\n\n    /// Compute the out-degree",
+  "        assert!(node < self.w.len(), \"node id {:?} is out of bounds\", node);\n        let counts = (self.t.values.table.as_ref() as &K::Type<K::I>).bincount(self.w.len());",
+  "        assert!(node < self.w.len(), \"node id {:?} is out of bounds\", node);\n        let counts = (self.s.values.table.as_ref() as &K::Type<K::I>).bincount(self.w.len());",
   ["C17"]),
  ("var_operation_reversed_operands","src/lax/var/operators.rs",
   "    for v in vars {\n        nodes.push(v.new_target());\n    }",
